@@ -7,7 +7,7 @@
    dereference exist.  With [accept_implies_valid] (Props/C09.v) the same follows from acceptance by
    arrow-rs's own validators. *)
 From Coq Require Import List Arith Bool ZArith.
-From AV Require Import Base.Bytes Model.C09_Layout Model.C01_Access Proofs.C01_Bounds.
+From AV Require Import Base.Bytes Model.C09_Layout Model.C09_Validate Model.C01_Access Proofs.C01_Bounds Proofs.C01_Nested Proofs.C09_Accept Proofs.C09_Main Proofs.C01_Validated.
 Import ListNotations.
 
 Theorem validity_bitmap_read_in_bounds : forall a i,
@@ -46,3 +46,79 @@ Theorem fixed_size_list_child_range_in_bounds : forall n nullable c len off null
   spec_node a = true -> (i < len)%nat -> forallb (child_slots_in_bounds a) (child_slots a i) = true.
 Proof. exact child_slots_fixed_list. Qed.
 Print Assumptions fixed_size_list_child_range_in_bounds.
+
+(* ---- the remaining nested layouts (Proofs/C01_Nested.v) *)
+Theorem listview_reads_and_child_range_in_bounds : forall large nullable c len off nulls bufs kids i,
+  let a := PArr (TListView large nullable c) len off nulls bufs kids in
+  spec_node a = true -> (i < len)%nat ->
+  forallb (read_in_bounds a) (own_reads a i) = true /\ forallb (child_slots_in_bounds a) (child_slots a i) = true.
+Proof. exact listview_reads_slots. Qed.
+Print Assumptions listview_reads_and_child_range_in_bounds.
+
+Theorem struct_child_slots_in_bounds : forall fs len off nulls bufs kids i,
+  let a := PArr (TStruct fs) len off nulls bufs kids in
+  spec_node a = true -> (i < len)%nat -> forallb (child_slots_in_bounds a) (child_slots a i) = true.
+Proof. exact struct_slots. Qed.
+Print Assumptions struct_child_slots_in_bounds.
+
+Theorem union_reads_and_child_slot_in_bounds : forall dense fs len off nulls bufs kids i,
+  let a := PArr (TUnion dense fs) len off nulls bufs kids in
+  spec_node a = true -> (i < len)%nat ->
+  forallb (read_in_bounds a) (own_reads a i) = true /\ forallb (child_slots_in_bounds a) (child_slots a i) = true.
+Proof. exact union_reads_slots. Qed.
+Print Assumptions union_reads_and_child_slot_in_bounds.
+
+(* the physical index RunEndBuffer::get_physical_index finds (partition point x <= offset + i over all run ends)
+   exists in the values child *)
+Theorem run_end_physical_index_in_bounds : forall rw v len off nulls bufs kids i,
+  let a := PArr (TRee rw v) len off nulls bufs kids in
+  spec_node a = true -> (i < len)%nat -> forallb (child_slots_in_bounds a) (child_slots a i) = true.
+Proof. exact ree_slots. Qed.
+Print Assumptions run_end_physical_index_in_bounds.
+
+(* ---- every data type at once *)
+Theorem every_accessor_read_in_bounds : forall a i,
+  spec_node a = true -> (i < p_len a)%nat -> forallb (read_in_bounds a) (own_reads a i) = true.
+Proof. exact own_reads_ok. Qed.
+Print Assumptions every_accessor_read_in_bounds.
+
+Theorem every_dereferenced_child_slot_exists : forall a i,
+  spec_node a = true -> (i < p_len a)%nat -> forallb (child_slots_in_bounds a) (child_slots a i) = true.
+Proof. exact child_slots_ok. Qed.
+Print Assumptions every_dereferenced_child_slot_exists.
+
+(* ---- "no sequence of safe calls on such results can read outside a buffer": on a tree the specification
+   accepts, every chain of value() calls of any depth that starts at an in-range slot arrives at an in-range slot
+   of a valid node, where the validity-bitmap read, every accessor read and every child slot are again in
+   bounds (induction over the chain, [reach] in Model/C01_Access.v) *)
+Theorem accessor_chains_never_leave_buffers : forall a i b m,
+  spec_valid a = true -> (i < p_len a)%nat -> reach a i b m ->
+  (m < p_len b)%nat /\ null_read_in_bounds b m = true /\
+  forallb (read_in_bounds b) (own_reads b m) = true /\ forallb (child_slots_in_bounds b) (child_slots b m) = true.
+Proof. exact accessor_chain_ok. Qed.
+Print Assumptions accessor_chains_never_leave_buffers.
+
+(* the same from acceptance by the transcription of arrow-rs's own ArrayData::validate_full (Props/C09.v) *)
+Theorem validated_accessor_chains_never_leave_buffers : forall a i b m,
+  tree_all phys a = true -> tree_all covered a = true -> impl_validate_full a = true ->
+  (i < p_len a)%nat -> reach a i b m ->
+  (m < p_len b)%nat /\ null_read_in_bounds b m = true /\
+  forallb (read_in_bounds b) (own_reads b m) = true /\ forallb (child_slots_in_bounds b) (child_slots b m) = true.
+Proof. exact validated_chain_ok. Qed.
+Print Assumptions validated_accessor_chains_never_leave_buffers.
+
+(* non-vacuity: Struct<List<Int32>> at offset 1: slot 0 of the struct reaches, through the struct field and the
+   list offsets [2,3), element 2 of the Int32 leaf *)
+Example chain_nonvacuous :
+  let leaf := PArr (TFixed 4) 3 0 None [[1;0;0;0; 2;0;0;0; 3;0;0;0]%N] [] in
+  let lst := PArr (TList false true (TFixed 4)) 3 0 None [[0;0;0;0; 2;0;0;0; 3;0;0;0; 3;0;0;0]%N] [leaf] in
+  let st := PArr (TStruct [(true, TList false true (TFixed 4))]) 2 1 None [] [lst] in
+  spec_valid st = true /\ reach st 0 leaf 2.
+Proof.
+  split; [vm_compute; reflexivity|].
+  eapply reach_step with (j := 0%nat) (s := 1%Z) (n := 1%Z) (k := 1%nat);
+    [vm_compute; left; reflexivity | reflexivity | vm_compute; split; [discriminate | reflexivity] |].
+  eapply reach_step with (j := 0%nat) (s := 2%Z) (n := 1%Z) (k := 2%nat);
+    [vm_compute; left; reflexivity | reflexivity | vm_compute; split; [discriminate | reflexivity] |].
+  apply reach_here.
+Qed.
